@@ -208,21 +208,30 @@ theorem validate_empty (p : Policy) (cs : Sites) (t : T) (k : Nat) (h : isEmptyN
   · exact mutT_empty p .adapt _ _ (recreate_empty p [] t k h)
   · exact mutT_empty p .adapt _ _ h
 
+theorem stripShared_sub (p : Policy) (t : T) : ∀ i ∈ stripShared p t, i ∈ mutIds p t := by
+  unfold stripShared
+  split
+  · intro i hi; exact hi
+  · exact sharedMut_sub p t
+
 theorem dump_spec (p : Policy) (cs : Sites) (mkeys : List String) (ok : Nat → Prop) (t : T) (k : Nat)
     (hcs : cs.dump = true) (hs : ∀ i ∈ sharedMut p t, ok i) (hf : Fresh ok k) :
     ∀ w ∈ (dump p cs mkeys t k).writes, ok w := by
   unfold dump
   simp only [hcs, copyIf, ↓reduceIte]
-  by_cases he : isEmptyNode t = true
-  · -- an empty config is handed on itself; nothing is ever assigned into an empty container
+  by_cases he : (isEmptyNode t && !p.stripEmpty) = true
+  · -- (before fix 3b44d63) an empty config is handed on itself; nothing is ever assigned into an empty container
+    have he' : isEmptyNode t = true := by
+      simp only [Bool.and_eq_true] at he; exact he.1
     simp only [stripMeta, he, ↓reduceIte]
     intro w hw
-    rw [validate_empty p cs t k he] at hw
+    rw [validate_empty p cs t k he'] at hw
     unfold serMut at hw
-    rw [mutT_empty p .ser t _ he] at hw
+    rw [mutT_empty p .ser t _ he'] at hw
     simp at hw
-  · have he' : isEmptyNode t = false := by simpa using he
-    have hc := stripMeta_spec p mkeys ok t k hs hf he'
+  · have hs' : ∀ i ∈ stripShared p t, ok i := by
+      intro i hi; apply hs; simp only [stripShared, he] at hi; exact hi
+    have hc := stripMeta_spec p mkeys ok t k hs' hf
     have hv := validate_spec p cs ok _ _ (Or.inr hc.1) (hf.mono hc.2)
     have hsr := mutT_spec p .ser ok (stripMeta p mkeys t k).val (validate p cs (stripMeta p mkeys t k).val (stripMeta p mkeys t k).next).next
       hc.1 (hf.mono (Nat.le_trans hc.2 hv.2.2))
@@ -356,18 +365,30 @@ theorem parseObject_spec (p : Policy) (cs : Sites) (ok : Nat → Prop) (hns : p.
 
 /-! ### instantiate -/
 
+theorem rootWrite_sub (p : Policy) (t : T) : ∀ i ∈ rootWrite p t, i ∈ mutIds p t := by
+  cases t with
+  | atom n => intro i hi; simp [rootWrite] at hi
+  | node kd j kids =>
+    intro i hi
+    simp only [rootWrite] at hi
+    by_cases hp : p.inplace kd = true
+    · simp only [hp, ↓reduceIte, List.mem_singleton] at hi
+      subst hi; simp [mutIds, hp]
+    · simp [hp] at hi
+
+/-- instantiate_classes: the working copy is `strip_meta(cfg)`; class groups / instantiation links assign into its root -/
 theorem instantiate_spec (p : Policy) (cs : Sites) (mkeys : List String) (ok : Nat → Prop) (t : T) (k : Nat)
-    (hcs : cs.instantiate = true) (hs : ∀ i ∈ sharedMut p t, ok i) (hf : Fresh ok k) :
-    ∀ w ∈ (instantiate p cs mkeys t k).writes, ok w := by
+    (hcs : cs.instantiate = true) (hs : ∀ i ∈ stripShared p t, ok i) (hf : Fresh ok k) :
+    Spec p ok k (instantiate p cs mkeys t k) := by
   unfold instantiate instMut
-  simp only [hcs, copyIf, ↓reduceIte]
-  by_cases he : isEmptyNode t = true
-  · simp only [stripMeta, he, ↓reduceIte]
-    rw [mutT_empty p .inst t k he]
-    intro w hw; simp at hw
-  · have he' : isEmptyNode t = false := by simpa using he
-    have hc := stripMeta_spec p mkeys ok t k hs hf he'
-    exact (mutT_spec p .inst ok _ _ hc.1 (hf.mono hc.2)).1
+  simp only [hcs, copyIf, ↓reduceIte, Spec]
+  have hc := stripMeta_spec p mkeys ok t k hs hf
+  have hm := mutT_spec p .inst ok _ _ hc.1 (hf.mono hc.2)
+  refine ⟨?_, hm.2.1, Nat.le_trans hc.2 hm.2.2⟩
+  intro w hw
+  rcases List.mem_append.mp hw with hw | hw
+  · exact hc.1 w (rootWrite_sub p _ w hw)
+  · exact hm.1 w hw
 
 /-! ### brackets -/
 
